@@ -579,7 +579,21 @@ func (ex *Exec) applyAddend(fr *Frame, st *State, x *Val, in ssa.Instruction) *V
 			ex.note("pointer arithmetic on field location in %s", fr.key)
 			return ex.freshVal(types.Typ[types.UnsafePointer], "ptrarith")
 		}
-		l2.Steps[last].Idx = ex.name(Add(l2.Steps[last].Idx, add), "pa")
+		nidx := ex.name(Add(l2.Steps[last].Idx, add), "pa")
+		l2.Steps[last].Idx = nidx
+		// an embedded array directly followed by an array field of the same element type:
+		// the arithmetic may deliberately run on into the next field (histogram.distCode)
+		if n := l2.Steps[last].N; n > 0 && last >= 1 && !l2.Steps[last-1].IsIdx {
+			if nl, m, ok := ex.adjacentArray(l2, last); ok {
+				total := BVConst(n+m, 64)
+				ex.oblige(st, "unsafe", fmt.Sprintf("ptradd[%s]", ex.ordinalAt(fr, in)), And(SLe(BVConst(0, 64), nidx), SLt(nidx, total)), nil, posOf(fr.fn, in.Pos()), "pointer arithmetic stays inside the two adjacent arrays of the struct")
+				inFirst := ex.name(SLt(nidx, BVConst(n, 64)), "pa1")
+				r.Tg = append(r.Tg, Target{G: And(t.G, inFirst), Loc: l2, HasLimit: true, Limit: ex.name(Sub(BVConst(n, 64), nidx), "lim")})
+				nl.Steps[len(nl.Steps)-1].Idx = ex.name(Sub(nidx, BVConst(n, 64)), "pa2")
+				r.Tg = append(r.Tg, Target{G: And(t.G, Not(inFirst)), Loc: nl, HasLimit: true, Limit: ex.name(Sub(total, nidx), "lim")})
+				continue
+			}
+		}
 		nt := Target{G: t.G, Loc: l2, HasLimit: t.HasLimit}
 		if t.HasLimit {
 			nt.Limit = ex.name(Sub(t.Limit, add), "lim")
@@ -685,4 +699,37 @@ func (p *Prog) lookupTypeKey(k string) types.Type {
 		t = types.NewPointer(t)
 	}
 	return t
+}
+
+// adjacentArray: l ends in [field f][index]; if the struct's next field is an array of the
+// same element type placed directly behind f, return the location pattern of its elements and its length.
+func (ex *Exec) adjacentArray(l Loc, last int) (Loc, int64, bool) {
+	parent := Loc{Obj: l.Obj, Steps: l.Steps[:last-1]}
+	pt := ex.safeTypeAt(parent)
+	if pt == nil {
+		return Loc{}, 0, false
+	}
+	stt, ok := under(pt).(*types.Struct)
+	if !ok {
+		return Loc{}, 0, false
+	}
+	fi := l.Steps[last-1].Field
+	if fi+1 >= stt.NumFields() {
+		return Loc{}, 0, false
+	}
+	a1, ok1 := under(stt.Field(fi).Type()).(*types.Array)
+	a2, ok2 := under(stt.Field(fi+1).Type()).(*types.Array)
+	if !ok1 || !ok2 || !types.Identical(a1.Elem(), a2.Elem()) {
+		return Loc{}, 0, false
+	}
+	var fields []*types.Var
+	for i := 0; i < stt.NumFields(); i++ {
+		fields = append(fields, stt.Field(i))
+	}
+	offs := sizes.Offsetsof(fields)
+	if offs[fi+1] != offs[fi]+a1.Len()*sizes.Sizeof(a1.Elem()) {
+		return Loc{}, 0, false
+	}
+	nl := parent.Field(fi+1, stt.Field(fi+1).Name()).Index(BVConst(0, 64), a2.Len())
+	return nl, a2.Len(), true
 }
